@@ -412,18 +412,6 @@ def rule_sharepath(ctx):
                     ws.extend(fn.succ[x])
                 return False
 
-            def leads_push(b0):
-                ws, sn = [b0], set()
-                while ws:
-                    x = ws.pop()
-                    if x in sn or x not in fn.reach:
-                        continue
-                    sn.add(x)
-                    if x in pushes:
-                        return True
-                    ws.extend(fn.succ[x])
-                return False
-
             def leafish(adt, names_):
                 A = fx.adts.get(adt)
                 if not A:
@@ -459,10 +447,8 @@ def rule_sharepath(ctx):
                     continue
                 succs = [b for _v, b in t_["targets"]] + [t_["otherwise"]]
                 outs_ = [b for b in succs if leads_out(b)]
-                if not outs_ or not any(leads_push(b) and not leads_out(b) for b in succs) and not any(leads_push(b) for b in succs if b not in outs_):
-                    continue
-                if all(leads_out(b) for b in succs) and not any(leads_push(b) and not leads_out(b) for b in succs):
-                    continue
+                if not outs_ or len(outs_) == len(succs):
+                    continue        # not the switch that decides between handing back and lifting
                 # what is tested
                 l0 = op_root(t_["discr"])
                 kind = None
